@@ -431,6 +431,24 @@ func pathDepth(v ssa.Value, d int) string {
 			parts = append(parts, p)
 		}
 		return strings.TrimPrefix(recv, "&") + "." + short + "(" + strings.Join(parts, ",") + ")"
+	case *ssa.IndexAddr:
+		base := pathDepth(x.X, d+1)
+		if base == "" {
+			return ""
+		}
+		return "&" + strings.TrimPrefix(base, "&") + "[" + indexPath(x.Index, d) + "]"
+	case *ssa.Index:
+		base := pathDepth(x.X, d+1)
+		if base == "" {
+			return ""
+		}
+		return strings.TrimPrefix(base, "&") + "[" + indexPath(x.Index, d) + "]"
+	case *ssa.Lookup:
+		base := pathDepth(x.X, d+1)
+		if base == "" {
+			return ""
+		}
+		return strings.TrimPrefix(base, "&") + "[" + indexPath(x.Index, d) + "]"
 	case *ssa.Slice:
 		// addr[:] of an array value
 		if x.Low == nil && x.High == nil {
@@ -445,6 +463,16 @@ func pathDepth(v ssa.Value, d int) string {
 		return base + ".(" + Short(types.TypeString(x.AssertedType, nil)) + ")"
 	}
 	return ""
+}
+
+// indexPath renders an index expression; loop induction variables and other non-path values
+// become "*" (an element, unspecified which). Paths containing "[*]" never compare equal in
+// SamePath unless the SSA values are identical.
+func indexPath(v ssa.Value, d int) string {
+	if p := pathDepth(v, d+1); p != "" {
+		return p
+	}
+	return "*"
 }
 
 func fieldName(t types.Type, idx int) string {
@@ -527,6 +555,9 @@ func SamePath(a, b ssa.Value) bool {
 		return true
 	}
 	pa, pb := Path(a), Path(b)
+	if strings.Contains(pa, "[*]") {
+		return false
+	}
 	return pa != "" && strings.TrimPrefix(pa, "&") == strings.TrimPrefix(pb, "&")
 }
 
